@@ -231,6 +231,14 @@ Definition key_ok (k : str) : bool :=
 
 Definition name_ok (n : str) : bool := negb (nilb n) && no_quote n.
 
+(* "If there are no node names, it will be auto-filled with convention nodeN with N representing a
+   number" (newick_to_tree): names of that form are reserved when intermediate names are omitted *)
+Definition auto_name (n : str) : bool :=
+  match n with
+  | 110 :: 111 :: 100 :: 101 :: d :: r => forallb (fun c => (48 <=? c) && (c <=? 57)) (d :: r)
+  | _ => false
+  end.
+
 Definition node_in_alphabet (o : nwopt) (t : tree) : bool :=
   name_ok (tname t)
   && forallb (fun k => match attr_get k (tattrs t) with
@@ -248,6 +256,7 @@ Definition len_ok (o : nwopt) (t : tree) : bool :=
 
 Definition newick_alphabet (o : nwopt) (isroot : bool) (t : tree) : bool :=
   all_nodes (node_in_alphabet o) t
+  && (o_inter o || all_nodes (fun x => negb (auto_name (tname x))) t)
   && sib_distinct t
   && forallb key_ok (o_keys o) && names_nodup (o_keys o)
   && (nilb (o_len o)
